@@ -263,6 +263,40 @@ class C13(Property):
                    'return value and the number of calls of the user\'s wrapper are judged by the oracle only']
     CORRESPONDENCE_NAME = 'C13.Driver (FunctionBuilder / update_wrapper / argument-binding model; sessions on the heap model) vs boltons.funcutils.wraps'
 
+    # ------------------------------------------------------------------ translator
+    def regen(self):
+        """the text FunctionBuilder.get_sig_str(with_annotations=False) / get_invocation_str() produce NOW, for every
+        builder shape with <=2 positional parameters, *args or none, <=2 keyword-only parameters, **kw or none (36
+        shapes; the functions are evaluated - whether they use inspect_formatargspec and the _KWONLY_MARKER regex or
+        anything else does not matter).  Props.lean proves (`generated_text_agrees`, by evaluation in the kernel)
+        that the character-level model of Text.lean - join with ', ', the scanner for the regex - yields the same
+        text modulo white space on each of them."""
+        from boltons import funcutils
+        ok = set('abcdefghijklmnopqrstuvwxyzABCDEFGHIJKLMNOPQRSTUVWXYZ0123456789_ ,*=()\t')
+        rows = []
+        for args in ([], [1], [1, 2]):
+            for va in (None, 7):
+                for kwo in ([], [4], [4, 5]):
+                    for vk in (None, 9):
+                        fb = funcutils.FunctionBuilder('fn', args=['p%d' % a for a in args],
+                                                       varargs=None if va is None else 'p%d' % va,
+                                                       varkw=None if vk is None else 'p%d' % vk,
+                                                       kwonlyargs=['p%d' % k for k in kwo])
+                        sig, inv = fb.get_sig_str(with_annotations=False), fb.get_invocation_str()
+                        for t in (sig, inv):
+                            if not isinstance(t, str) or not set(t) <= ok:
+                                raise ValueError('get_sig_str / get_invocation_str returned %r' % (t,))
+                        opt = lambda x: 'none' if x is None else 'some %d' % x   # noqa: E731
+                        rows.append('  ((%s, %s, %s, %s), "%s", "%s")' % (args, opt(va), kwo, opt(vk),
+                                                                           sig.replace('\t', '\\t'), inv.replace('\t', '\\t')))
+        src = ('/- GENERATED by harness/bv/props/c13.py (regen) from boltons/funcutils.py - do not edit -/\n'
+               'namespace C13.Gen\n'
+               '/-- ((args, varargs, kwonlyargs, varkw), get_sig_str(with_annotations=False), get_invocation_str()) -/\n'
+               'def textTable : List ((List Nat × Option Nat × List Nat × Option Nat) × String × String) := [\n'
+               + ',\n'.join(rows) + ']\n'
+               'end C13.Gen\n')
+        return {'C13_Text.lean': src}
+
     # ------------------------------------------------------------------ generation
     def base_sigs(self, maxpos, kwo_cfgs):
         for npos in range(maxpos + 1):
